@@ -98,6 +98,9 @@ def registry():
            "Inventory": Inventory, "Relationship": Relationship}
     if vclasses.Backpack is not None:
         reg["Backpack"] = vclasses.Backpack
+    if getattr(vclasses, "Companion", None) is not None:
+        reg["Companion"] = vclasses.Companion
+        reg["Coffer"] = vclasses.Coffer
     return reg
 
 
@@ -192,6 +195,12 @@ def observe(v):
     for k, x in vars(v).items():
         if not k.startswith("_"):
             out[k] = observe(x)
+    # what `obj.attr` shows for class-level defaults of a story's own subclass (the instance value when it has one)
+    for klass in type(v).__mro__:
+        if klass.__module__ == "vclasses":
+            for k, x in vars(klass).items():
+                if not k.startswith("_") and not callable(x) and not isinstance(x, (property, classmethod, staticmethod)) and k not in out:
+                    out[k] = observe(getattr(v, k))
     for p_ in PROPS_SEEN:
         if hasattr(type(v), p_):
             try:
@@ -287,6 +296,20 @@ def gen_stdlib_value(r, depth=0):
             sh.set_discount(r.choice([0.5, 0.8, 0.1]))
         return sh
     if k < 0.8:
+        if getattr(vclasses, "Companion", None) is not None and r.random() < 0.4:
+            # subclasses whose class-level defaults the instance has moved away from (through a hook, or set by the story)
+            if r.random() < 0.6:
+                c_ = vclasses.Companion(r.choice(["Alex", "Mira"]), r.randint(40, 70), r.randint(0, 100), r.randint(-10, 10))
+                c_.add_trust(r.randint(0, 30))
+                if r.random() < 0.5:
+                    c_.nickname = r.choice(["Lex", ""])
+                return c_
+            f_ = vclasses.Coffer(r.randint(0, 90))
+            if r.random() < 0.7:
+                f_.currency = r.choice(["silver", "gold", "shells"])
+            if r.random() < 0.4:
+                f_.locked = True
+            return f_
         rel = Relationship(r.choice(["Alex", "Mira"]), r.randint(0, 100), r.randint(0, 100), r.randint(-10, 10))
         if r.random() < 0.6:
             rel.mood = r.choice(["wary", "warm"])          # an attribute the story itself put on the object
